@@ -253,6 +253,25 @@ func ruleC03R2(c *Ctx) {
 				}
 			})
 		}
+		// all crcWidth bytes take part: an operand re-sliced to fewer bytes compares less than the checksum
+		whole := true
+		for _, arg := range args {
+			if sl, ok := arg.(*ssa.Slice); ok {
+				lowOK := sl.Low == nil
+				if k, okc := constInt(sl.Low); sl.Low != nil && okc && k == 0 {
+					lowOK = true
+				}
+				highOK := sl.High == nil
+				if k, okc := constInt(sl.High); sl.High != nil && okc && k >= crcWidth {
+					highOK = true
+				}
+				if !lowOK || !highOK {
+					whole = false
+				}
+			}
+		}
+		c.Check(whole, "checksum comparison covers all checksum bytes in "+name, c.Pos(eqCall.Pos()), "no operand is re-sliced to fewer than crcWidth bytes",
+			"an operand of the comparison is re-sliced to fewer than crcWidth bytes: a damaged snapshot with a wrong checksum is accepted")
 		c.Check(computedOK && storedOK, "checksum comparison compares hash-reader sum with the file trailer in "+name, c.Pos(eqCall.Pos()),
 			"one operand is filled from Sum32() of the hashing reader the decoder read through, the other is read from the loaded data",
 			fmt.Sprintf("the comparison does not compare the computed checksum (ok=%v) with the stored one (ok=%v)", computedOK, storedOK))
@@ -323,7 +342,14 @@ func ruleC03R2(c *Ctx) {
 	}
 	var problems []string
 	nWrites := 0
-	isHW := func(v ssa.Value) bool { return stripIface(v) == ssa.Value(hw) }
+	// the hashing writer, also when it lives in a captured cell or is seen from a closure
+	isHW := func(v ssa.Value) bool {
+		v = stripIface(v)
+		if v == ssa.Value(hw) {
+			return true
+		}
+		return dependsOnStop(v, func(y ssa.Value) bool { return y == ssa.Value(hw) }, func(y ssa.Value) bool { _, isCall := y.(*ssa.Call); return isCall && y != ssa.Value(hw) })
+	}
 	// writeTarget: the writer a call writes to (directly or by handing it to a helper), nil if the call does not write
 	writeTarget := func(ci *ssa.Call) (ssa.Value, string) {
 		if ci == hw {
@@ -347,53 +373,72 @@ func ruleC03R2(c *Ctx) {
 		}
 		return nil, ""
 	}
-	eachInstr(wt, func(in ssa.Instruction) {
-		if ci, ok := in.(*ssa.Call); ok {
-			if t, _ := writeTarget(ci); t != nil {
-				nWrites++
-			}
-		}
-	})
-	// order: Sum32 -> exactly one write -> Flush success -> nil return
 	const (
 		wfSummed uint64 = 1 << iota
 		wfWroteAfterSum
 		wfWroteTwiceAfterSum
 		wfFlushed
+		wfBypass
+		// context-free events of a callee (closure): translated by Combine
+		evWroteHW
+		evWroteOther
 	)
-	ex := &Explorer{Fn: wt}
-	ex.Outcomes = func(ci ssa.CallInstruction, st *PState) []Outcome {
-		f := ci.Common().StaticCallee()
+	applyWrite := func(flags uint64, hwTarget bool) uint64 {
+		if flags&wfSummed == 0 {
+			if !hwTarget {
+				flags |= wfBypass
+			}
+			return flags
+		}
+		if flags&wfWroteAfterSum != 0 {
+			flags |= wfWroteTwiceAfterSum
+		}
+		return flags | wfWroteAfterSum
+	}
+	sm := &Summarizer{}
+	sm.Follow = func(fn *ssa.Function) bool { return fn.Parent() != nil && enclosingTop(fn) == wt } // local closures only
+	sm.SiteOutcomes = func(ci ssa.CallInstruction, st *PState) []Outcome {
+		call, ok := ci.(*ssa.Call)
+		if !ok {
+			return nil
+		}
+		f := call.Common().StaticCallee()
 		if f != nil && f.Name() == "Flush" && f.Signature.Recv() != nil {
-			return []Outcome{{Results: []Tri{TriNo}, Flags: wfFlushed}, {Results: []Tri{TriYes}}}
+			return []Outcome{{Results: []Tri{TriNo}, Flags: st.Flags | wfFlushed, Replace: true}, {Results: []Tri{TriYes}, Flags: st.Flags, Replace: true}}
+		}
+		if f != nil && f.Name() == "Sum32" && f.Signature.Recv() != nil && isHW(call.Common().Args[0]) {
+			return []Outcome{{Flags: st.Flags | wfSummed, Replace: true}}
+		}
+		if tgt, _ := writeTarget(call); tgt != nil {
+			nWrites++
+			fl := st.Flags
+			if call.Parent() == wt {
+				fl = applyWrite(fl, isHW(tgt))
+			} else if isHW(tgt) {
+				fl |= evWroteHW
+			} else {
+				fl |= evWroteOther
+			}
+			return []Outcome{{Flags: fl, Replace: true}}
 		}
 		return nil
 	}
-	ex.OnInstr = func(in ssa.Instruction, st *PState) bool {
-		ci, ok := in.(*ssa.Call)
-		if !ok {
-			return true
+	sm.Combine = func(caller, callee uint64) uint64 {
+		f := caller
+		if callee&evWroteHW != 0 {
+			f = applyWrite(f, true)
 		}
-		f := ci.Common().StaticCallee()
-		if f != nil && f.Name() == "Sum32" && f.Signature.Recv() != nil && isHW(ci.Common().Args[0]) {
-			st.Flags |= wfSummed
-			return true
+		if callee&evWroteOther != 0 {
+			f = applyWrite(f, false)
 		}
-		tgt, what := writeTarget(ci)
-		isWrite := tgt != nil
-		if isWrite && st.Flags&wfSummed == 0 && !isHW(tgt) {
-			problems = append(problems, what+" at "+c.Pos(ci.Pos())+" bypasses the hashing writer before the checksum is taken")
-		}
-		if isWrite && st.Flags&wfSummed != 0 {
-			if st.Flags&wfWroteAfterSum != 0 {
-				st.Flags |= wfWroteTwiceAfterSum
-			}
-			st.Flags |= wfWroteAfterSum
-		}
-		return true
+		return f
 	}
+	ex := sm.Explorer(wt)
 	ex.OnReturn = func(r *ssa.Return, st *PState) {
 		ei := fnErrIdx(wt)
+		if st.Flags&wfBypass != 0 {
+			problems = append(problems, "a write reaches the file without passing the hashing writer before the checksum is taken")
+		}
 		if ei < 0 || st.Eval(r.Results[ei]) == TriYes {
 			return
 		}
@@ -423,8 +468,8 @@ func ruleC03R2(c *Ctx) {
 	if !sumFlows {
 		problems = append(problems, "the value encoded as trailer is not Sum32() of the hashing writer")
 	}
-	c.Check(len(problems) == 0 && !ex.Exceeded, "snapshot writer hashes every byte and writes the sum last", c.Pos(wt.Pos()),
-		fmt.Sprintf("%d write sites, all through the hashing writer; Sum32 -> one write -> Flush on every success path", nWrites), uniqJoin(problems))
+	c.Check(len(problems) == 0 && !ex.Exceeded && !sm.Exceeded, "snapshot writer hashes every byte and writes the sum last", c.Pos(wt.Pos()),
+		fmt.Sprintf("%d write sites, all through the hashing writer until the sum is taken; Sum32 -> one write -> Flush on every success path", nWrites), uniqJoin(problems))
 }
 
 func passesWriter(cc *ssa.CallCommon) bool {
